@@ -103,12 +103,12 @@ def _tag_on(text_lines, gen_line):
     return None
 
 
-def run_unit(unit, variant, multiple_errors=20, extra_args=(), rlimit=None):
+def run_unit(unit, variant, multiple_errors=20, extra_args=(), rlimit=None, inline=None):
     ur = UnitRun(unit, variant)
     t0 = time.time()
     tmpl = os.path.join(VERIF, "units", unit, "unit.rs")
     try:
-        b = B.build(tmpl, REPO, variant)
+        b = B.build(tmpl, REPO, variant, inline)
     except (LostAnchor, Unsupported) as e:
         ur.status, ur.reason = "undecided", "%s: %s" % (type(e).__name__, e)
         return ur
@@ -141,6 +141,40 @@ def run_unit(unit, variant, multiple_errors=20, extra_args=(), rlimit=None):
             except Exception:
                 pass
     ur.stderr_tail = "\n".join((d.get("rendered") or d.get("message", "")) for d in diags if d.get("level") == "error")[-6000:]
+    if inline is None:
+        # a call of a function that is not part of the unit (e.g. a freshly extracted private helper): if it is a small
+        # function of one of the unit's source files, inline its body at the call sites (rule R20) and try once more
+        names = set()
+        for d in diags:
+            m = re.search(r"no method named `(\w+)` found|cannot find function `(\w+)` in this scope|no function or associated item named `(\w+)` found", d.get("message", ""))
+            if d.get("level") == "error" and m:
+                names.add(m.group(1) or m.group(2) or m.group(3))
+        helpers = {}
+        if names:
+            import extract as X
+            import rules as RR
+            files = sorted({f["file"] for f in b.functions})
+            for nm in names:
+                found = []
+                for rel in files:
+                    path_ = os.path.join(REPO, rel)
+                    for (header, kind_, iname, line_) in X.list_items(path_):
+                        if kind_ == "fn" and iname == nm:
+                            found.append((rel, header))
+                if len(found) == 1:
+                    rel, header = found[0]
+                    try:
+                        if header:
+                            tr, tyname, tyfull = X._impl_names(header)
+                            sel = ("<%s for %s>::%s" % (tr, tyname, nm)) if tr else ("%s::%s" % (tyname, nm))
+                        else:
+                            sel = "fn " + nm
+                        it = X.find_item(os.path.join(REPO, rel), sel)
+                        helpers[nm] = RR.make_helper(it, "%s:%d" % (rel, it.line0))
+                    except Exception:
+                        pass
+        if helpers:
+            return run_unit(unit, variant, multiple_errors, extra_args, rlimit, helpers)
     if js is None or "verification-results" not in js:
         ur.status = "undecided"
         msgs = [d.get("message", "") for d in diags if d.get("level") == "error"]
